@@ -14,7 +14,7 @@ def run(chk, replay=None):
     if not q:
         steps += [dict(instr="asan", part="asan", count=3000, args=dict(maxn=8))]
     rtprops.execute(chk, "c15", steps)
-    rtprops.summarize(chk, ("callback_cases", "collector_cases", "iterator_cases"))
+    rtprops.summarize(chk, ("callback_cases", "collector_cases", "iterator_cases", "callback_round_cases", "adapter_cases"))
     chk.coverage["rule"] = ("exhaustive grid: n = 0..=maxn Tracked items x stop position {never, each index} x entry {feed_into, feed_into_mut, Extend::extend, Callbackable::call} "
                             "x sink {closure, Vec, VecDeque, custom Extend, BTreeSet}; CIterator: n x advance k x non-fused gap position with direct use of the source "
                             "between two wrappers; plus seeded long cases. distinct = grid points")
